@@ -48,18 +48,21 @@ def run(ctx):
     sb, place, targets, oth = max(sws, key=lambda s: len(s[2]))
     vnames = {v["idx"]: v["name"] for v in prog.adt(AIRSTMT)["variants"]}
     by_name = {vnames[i]: tb for i, tb in targets.items()}
-    default_reaches = E in ev.reachable(oth)
+    def can_reach_exec(start):
+        # feasible paths only: a helper's `return true` (refused) must be matched with the caller's early return
+        return E in ev.reachable(start) and kit.feasible_path_avoiding(ev, start, E, set()) is not None
+    default_reaches = can_reach_exec(oth)
     for v in ("Branch", "Interrupt"):
         ctx.instance(1)
         tb = by_name.get(v)
-        reaches = (E in ev.reachable(tb)) if tb is not None else default_reaches
+        reaches = can_reach_exec(tb) if tb is not None else default_reaches
         ctx.oblig(not reaches, {"refused": v}, "execute unreachable from the arm")
         if reaches:
             ctx.violation("refusal-missing|%s" % v, sp_file_line(ev.term(sb).get("sp")),
                           "eval lets `%s` statements reach execute: %s" % (v, "BR* would silently not branch (CC none) / RTI hits todo!()"))
     # raw words must not be executable through eval
     tb = by_name.get("RawWord")
-    reaches = (E in ev.reachable(tb)) if tb is not None else default_reaches
+    reaches = can_reach_exec(tb) if tb is not None else default_reaches
     ctx.oblig(not reaches, {"refused": "RawWord"}, "execute unreachable")
     if reaches:
         ctx.violation("refusal-missing|RawWord", sp_file_line(ev.term(sb).get("sp")), "eval can execute a raw data word")
